@@ -562,8 +562,8 @@ def footprint(srv, net, skip_rate, st, out, inp):
     hk = [i for i, c in enumerate(log) if 30 in c['msgs'] and 34 not in c['msgs']]
     gx = [i for i, c in enumerate(log) if 34 in c['msgs']]
     quiet = [i for i, c in enumerate(log) if not c.get('sent')]                # nothing sent by the tool: rate-check connections
-    nkeys = len([k for k in srv_keys(srv) if k in ALLKEYS])
-    ngex = len([k for k in srv_kex(srv) if k in GEXA])
+    nkeys = len(set(k for k in srv_keys(srv) if k in ALLKEYS))          # (distinct names: a server repeating a name does not earn more probes)
+    ngex = len(set(k for k in srv_kex(srv) if k in GEXA))
     if log and kexreq[0] != 0:
         fail(log[0]['msgs'], 'no key-exchange request on the initial connection', 'kex-request-on-first-connection')
     if any(k > 1 for k in kexreq) or any(c['msgs'].count(32) > 1 for c in log):
@@ -621,6 +621,29 @@ def one(case):
     if st == 99:
         return [{'input': dict(inp, **{'class': 'hang'}), 'got': 'more than 50000 reads', 'want': 'termination'}]
     return footprint(srv, net, skip, st, out, inp)
+def throttle_case(arg):
+    """the connections of the rate check are throttled by the server (no identification string): still at most 38 of them"""
+    answer, dup = arg
+    kexl = ['curve25519-sha256'] + ['diffie-hellman-group-exchange-sha256'] * (6 if dup else 1) + ['diffie-hellman-group14-sha256']
+    probe = base_server(kex=kexl, keys=['ssh-ed25519'])
+    st0, out0 = F.run_main(['-n', '--skip-rate-test', 's.test'], F.FakeNet({'s.test': probe}))
+    n_probe = len(probe.conn_log)
+    srv = base_server(kex=kexl, keys=['ssh-ed25519'])
+    srv.throttle_after = n_probe
+    srv.throttle_answer = answer
+    net = F.FakeNet({'s.test': srv})
+    net.recv_budget = 200000
+    st, out = F.run_main(['-n', 's.test'], net)
+    inp = {'class': 'throttled-rate-check', 'rate-check connections answered with': repr(answer)[:40], 'group-exchange name repeated': dup}
+    fails = []
+    if n_probe > 1 + 1 + 9:
+        fails.append({'input': dict(inp, **{'class': 'probe-connections-repeated-name'}), 'got': {'probe connections': n_probe}, 'want': 'at most 1 + 1 host-key type + 9 group-exchange probes'})
+    extra = len(srv.conn_log) - n_probe
+    if extra > 38 or st == 99:
+        fails.append({'input': inp, 'got': {'rate-check connections': extra}, 'want': 'at most 38'})
+    if any(not c['closed'] for c in srv.conn_log):
+        fails.append({'input': dict(inp, **{'class': 'throttled-left-open'}), 'got': 'connections left open', 'want': 'all closed'})
+    return fails
 def ssh1_case(second):
     """an SSH-1-only server: it answers an SSH-2 identification with 'Protocol major versions differ.' and closes; the tool retries once with SSH-1"""
     from ssh_audit.writebuf import WriteBuf
@@ -674,6 +697,9 @@ res = run_pool(one, work)
 for second in ('pkm', 'close', 'garbage', 'always-differs'):
     res.append(ssh1_case(second))
 work.extend(['ssh1'] * 4)
+thr = [(a, d) for a in (b'Exceeded MaxStartups\r\n', None, b'\x00\x01garbage', b'HTTP/1.1 400\r\n') for d in (False, True)]
+res += run_pool(throttle_case, thr)
+work.extend(thr)
 failures, per = [], {}
 for fl in res:
     for f in fl:
